@@ -46,7 +46,7 @@ class ContiguousVectorIterator
     {
     }
 
-    template <bool OtherIsConst>
+    template <bool OtherIsConst, std::enable_if_t<(IsConst || !OtherIsConst)>* = nullptr>
     /*implicit*/ constexpr ContiguousVectorIterator(
         const ContiguousVectorIterator<OtherIsConst, Options, Parameter...>& other) noexcept
         : i_(other.i_), memory_(other.memory_), locator_(other.locator_)
@@ -56,7 +56,7 @@ class ContiguousVectorIterator
     ContiguousVectorIterator(const ContiguousVectorIterator&) = default;
     ContiguousVectorIterator(ContiguousVectorIterator&&) = default;
 
-    template <bool OtherIsConst>
+    template <bool OtherIsConst, std::enable_if_t<(IsConst || !OtherIsConst)>* = nullptr>
     constexpr ContiguousVectorIterator& operator=(
         const ContiguousVectorIterator<OtherIsConst, Options, Parameter...>& other) noexcept
     {
